@@ -11,7 +11,7 @@ RULE = ("seeded swarm with every irrigation strategy (net irrigation with pre-ir
         "yield identities are recomputed from the row, the delivered ET0 and the season's crop parameters; after the run the seasonal "
         "summary is compared row by row with the harvest days the world observed (exactly-once, order, values, irrigation total). "
         "Non-trivial run: at least one season reached harvest; distinct = distinct configuration signatures")
-PROFILE = {"irr_methods": [0, 1, 2, 3, 4, 4, 5], "season_cap_p": 0.5, "n_seasons": [1, 2, 2, 3, 4],
+PROFILE = {"reactive_p": 0.3, "irr_methods": [0, 1, 2, 3, 4, 4, 5], "season_cap_p": 0.5, "n_seasons": [1, 2, 2, 3, 4],
            "event_kinds": ["drought", "drought", "cold_snap", "heat_wave", "storm", "et0_spike"], "events_per_year": 2.0,
            "end_kinds": ["after", "after", "mid", "harvestish", "eoy"], "off_season_p": 0.4}
 
